@@ -164,9 +164,23 @@ def _closest(ctx) -> None:
             elif is_acc or is_abs:
                 ctx.ob("ORDER.magnitude", f"Time.{name}/{nun(side)[:40]}", True, "distance compared as a non-negative number", m.loc(t))
             else:
-                ctx.unverified("ORDER.magnitude", f"Time.{name}", f"operand `{nun(side)}`", m.loc(t))
+                # a private helper: its canonical leaves must all be magnitudes (abs(...), an absolute accessor)
+                from .. import sem
+                done = False
+                if isinstance(side, ast.Call) and isinstance(side.func, ast.Attribute) and nun(side.func.value) == "self" and m.has_func(f"Time.{side.func.attr}"):
+                    try:
+                        lv = sem.leaves_of(m, f"Time.{side.func.attr}")
+                        vals = [str(x[2]) for c, it in lv for x in it if x[0] == "exit" and x[1] == "return"]
+                        if vals and all(v.startswith("abs(") for v in vals):
+                            ctx.ob("ORDER.magnitude", f"Time.{name}/{nun(side)[:40]}", True, f"helper returns {vals[0][:60]}: a non-negative distance", m.loc(t))
+                            done = True
+                    except (sem.Giveup, core.Unsupported, KeyError, AttributeError):
+                        pass
+                if not done:
+                    ctx.unverified("ORDER.magnitude", f"Time.{name}", f"operand `{nun(side)}`", m.loc(t))
         l, r = nun(t.left), nun(t.comparators[0])
-        sym = l.replace("dt1", "X") == r.replace("dt2", "X") and "self.diff(dt1)" in l and "self.diff(dt2)" in r
+        # the same distance function applied to both candidates (whatever it is called: self.diff(..).total_seconds(), a helper)
+        sym = l.replace("dt1", "X") == r.replace("dt2", "X") and "dt1" in l and "dt2" in r and "self" in l
         ok = isinstance(t.ops[0], op) and sym and nun(ifs[0].body[0]) == "return dt1" and nun(core.body_no_doc(fn)[-1]) == "return dt2"
         ctx.ob("ORDER.pairing", f"Time.{name}", ok,
                f"`if {nun(t)}: {nun(ifs[0].body[0])}` else dt2; {name} must return dt1 exactly when its distance is "
